@@ -459,6 +459,90 @@ def run(ctx):
     ctx.rule('R-LAYEDGES', 'edges = VGLVLS[lidx] + VGLVLS[lidx[-1] + 1]')
     sfn = io.func('ioapi_base.sliceDimensions')
     c11.lay_rules(ctx, sfn, c11.find_handlers(sfn).get('LAY'), 'src/PseudoNetCDF/%s ioapi_base.sliceDimensions' % IO)
+    # ---- R-LISTDIMS: a name stays in VAR-LIST only with one of the standard dimension tuples (finite case analysis of the predicate)
+    from .. import consteval
+    ctx.rule('R-LISTDIMS', 'getVarlist keeps a name listed only when the variable exists with the standard dimensions (gridded or boundary)')
+    gv = io.func('ioapi_base.getVarlist')
+    chk = None
+    for st in iter_stmts(gv.body):
+        if isinstance(st, ast.Assign) and norm(st.targets[0]) == 'check' and isinstance(getattr(st, '_parent', None), ast.For):
+            chk = st
+            break
+    if chk is None:
+        ctx.undec('R-LISTDIMS', 'check', '%s ioapi_base.getVarlist' % where, 'eligibility predicate not found in the recognised form (check = ... in the loop over names)')
+    else:
+        std = [('TSTEP', 'LAY', 'ROW', 'COL'), ('TSTEP', 'LAY', 'PERIM')]
+        other = [(), ('TSTEP',), ('TSTEP', 'LAY'), ('TSTEP', 'LAY', 'POINTS'), ('TSTEP', 'LAY', 'ROW'), ('TSTEP', 'LAY', 'COL', 'ROW'), ('TSTEP', 'VAR', 'DATE-TIME'),
+                 ('ROW', 'COL'), ('LAY', 'ROW', 'COL'), ('TSTEP', 'ROW', 'COL'), ('TSTEP', 'LAY', 'ROW', 'COL', 'EXTRA'), ('TSTEP', 'LAY', 'PERIM', 'EXTRA')]
+        res = dict((d, consteval.ev(chk.value, {'dims': d})) for d in std + other)
+        if any(v is consteval.UNK for v in res.values()):
+            ctx.undec('R-LISTDIMS', 'check', '%s ioapi_base.getVarlist' % where, 'predicate outside the evaluated fragment: %s' % norm(chk.value)[:80])
+        else:
+            wrong = [d for d in std if not res[d]] + [d for d in other if res[d]]
+            if wrong:
+                ctx.violation(Finding('R-LISTDIMS', IO, 'ioapi_base.getVarlist', chk, 'the eligibility test %s keeps a variable with dimensions %s %s: a listed variable must '
+                                      'exist with the standard dimensions, and only those are counted by NVARS/VAR/TFLAG' % (
+                                          norm(chk.value)[:70], wrong[0], 'out of VAR-LIST' if wrong[0] in std else 'in VAR-LIST')))
+            else:
+                ctx.ok('R-LISTDIMS', 'check', '%s ioapi_base.getVarlist' % where, 'true for %d standard tuples, false for %d others (incl. missing variable)' % (len(std), len(other)))
+    # ---- R-STARTSET: a time selection sets SDATE and STIME on every path (also when one step is kept)
+    ctx.rule('R-STARTSET', 'sliceDimensions sets SDATE and STIME from the first retained time on every path of the TSTEP handler')
+    th = c11.find_handlers(sfn).get('TSTEP')
+
+    def must_store(stmts, attr):
+        for st in stmts:
+            if isinstance(st, ast.Assign) and any(isinstance(t, ast.Attribute) and t.attr == attr and norm(t.value) == 'outf' for t in st.targets):
+                return st
+            if isinstance(st, ast.If) and st.orelse and must_store(st.body, attr) and must_store(st.orelse, attr):
+                return st
+            if isinstance(st, (ast.With,)) and must_store(st.body, attr):
+                return st
+        return None
+    if th is None:
+        ctx.undec('R-STARTSET', 'TSTEP handler', '%s ioapi_base.sliceDimensions' % where, 'no TSTEP handler found')
+    else:
+        for attr in ('SDATE', 'STIME'):
+            st = must_store(th.body, attr)
+            if st is None:
+                anyst = [s2 for s2 in iter_stmts(th.body) if isinstance(s2, ast.Assign) and any(isinstance(t, ast.Attribute) and t.attr == attr for t in s2.targets)]
+                ctx.violation(Finding('R-STARTSET', IO, 'ioapi_base.sliceDimensions', anyst[0] if anyst else th,
+                                      '%s is not set on every path of the TSTEP handler (%s): a selection for which the guard is false keeps the source file\'s start while '
+                                      'TFLAG is sliced' % (attr, 'only under a narrower condition' if anyst else 'never set')), oid='start:' + attr)
+            elif 'times[0]' in norm(st) or 'times[0]' in norm(st.value if isinstance(st, ast.Assign) else st):
+                ctx.ok('R-STARTSET', 'start:' + attr, '%s ioapi_base.sliceDimensions' % where, norm(st)[:70])
+            else:
+                ctx.undec('R-STARTSET', 'start:' + attr, '%s ioapi_base.sliceDimensions' % where, 'set on every path but not from times[0]: %s' % norm(st)[:60])
+    # ---- R-NEWEDGES: interpSigma stores the requested edges, not the input file's
+    ctx.rule('R-NEWEDGES', 'interpSigma stores the requested level edges (parameter vglvls) as VGLVLS of the result')
+    isf = io.func('ioapi_base.interpSigma')
+    params = [a.arg for a in isf.args.args]
+
+    def origins(e, depth=0, seen=None):
+        seen = seen if seen is not None else set()
+        out = set()
+        for n in ast.walk(e):
+            if isinstance(n, ast.Attribute) and isinstance(n.value, ast.Name) and n.value.id == 'self':
+                out.add('self.' + n.attr)
+            elif isinstance(n, ast.Name) and isinstance(n.ctx, ast.Load) and n.id not in ('self', 'np'):
+                defs = [s2 for s2 in iter_stmts(isf.body) if isinstance(s2, ast.Assign) and any(isinstance(t, ast.Name) and t.id == n.id for t in s2.targets)
+                        and '<locals>' not in getattr(s2, '_q', '')]
+                if n.id in params:
+                    out.add('param:' + n.id)
+                for d in defs:
+                    if id(d) not in seen:
+                        seen.add(id(d))
+                        out |= origins(d.value, depth + 1, seen)
+        return out
+    vst = [s2 for s2 in iter_stmts(isf.body) if isinstance(s2, ast.Assign) and norm(s2.targets[0]) == 'outf.VGLVLS']
+    if not vst:
+        ctx.violation(Finding('R-NEWEDGES', IO, 'ioapi_base.interpSigma', 'store VGLVLS', 'interpSigma does not store VGLVLS on the result', lineno=isf.lineno))
+    for st in vst:
+        o = origins(st.value)
+        if 'param:vglvls' in o and 'self.VGLVLS' not in o:
+            ctx.ok('R-NEWEDGES', norm(st)[:50], '%s ioapi_base.interpSigma' % where, 'value derives from %s' % sorted(o))
+        else:
+            ctx.violation(Finding('R-NEWEDGES', IO, 'ioapi_base.interpSigma', st, 'the stored level edges derive from %s, not (only) from the requested edges: after interpolating to '
+                                  'another number of layers VGLVLS no longer has NLAYS + 1 entries' % sorted(o)))
     # ---- R-COUNTATTR
     for attr, dim in (('NLAYS', 'LAY'), ('NCOLS', 'COL'), ('NROWS', 'ROW')):
         want = "self.%s = len(self.dimensions['%s'])" % (attr, dim)
